@@ -40,7 +40,9 @@ type c04attr struct {
 }
 
 func c04table() []c04attr {
-	sc := func(path string, other, final any) c04attr { return c04attr{path: path, class: "scalar", vals: []any{other, final}} }
+	sc := func(path string, other, final any) c04attr {
+		return c04attr{path: path, class: "scalar", vals: []any{other, final}}
+	}
 	mp := func(path string, keys []string, fin, alt []any) c04attr {
 		return c04attr{path: path, class: "map", keys: keys, fin: fin, alt: alt}
 	}
@@ -49,7 +51,9 @@ func c04table() []c04attr {
 	kv := func(path string) c04attr {
 		return c04attr{path: path, class: "kv", keys: []string{"KA", "KB", "KC"}, fin: []any{"1", "2", "3"}, alt: []any{"x", "y", "z"}}
 	}
-	wh := func(path string, other, final any) c04attr { return c04attr{path: path, class: "whole", vals: []any{other, final}} }
+	wh := func(path string, other, final any) c04attr {
+		return c04attr{path: path, class: "whole", vals: []any{other, final}}
+	}
 	m := func(kv ...any) map[string]any {
 		out := map[string]any{}
 		for i := 0; i+1 < len(kv); i += 2 {
@@ -338,8 +342,12 @@ func sortKeyedLists(p *types.Project) {
 			return fmt.Sprint(s.Ports[i].Target, s.Ports[i].Protocol, s.Ports[i].Published) < fmt.Sprint(s.Ports[j].Target, s.Ports[j].Protocol, s.Ports[j].Published)
 		})
 		sort.SliceStable(s.Devices, func(i, j int) bool { return s.Devices[i].Target < s.Devices[j].Target })
-		sort.SliceStable(s.Secrets, func(i, j int) bool { return s.Secrets[i].Target+s.Secrets[i].Source < s.Secrets[j].Target+s.Secrets[j].Source })
-		sort.SliceStable(s.Configs, func(i, j int) bool { return s.Configs[i].Target+s.Configs[i].Source < s.Configs[j].Target+s.Configs[j].Source })
+		sort.SliceStable(s.Secrets, func(i, j int) bool {
+			return s.Secrets[i].Target+s.Secrets[i].Source < s.Secrets[j].Target+s.Secrets[j].Source
+		})
+		sort.SliceStable(s.Configs, func(i, j int) bool {
+			return s.Configs[i].Target+s.Configs[i].Source < s.Configs[j].Target+s.Configs[j].Source
+		})
 		sort.SliceStable(s.EnvFiles, func(i, j int) bool { return s.EnvFiles[i].Path < s.EnvFiles[j].Path })
 		for _, l := range []*[]string{(*[]string)(&s.CapAdd), (*[]string)(&s.CapDrop), (*[]string)(&s.DNS), (*[]string)(&s.DNSSearch), &s.DNSOpts, (*[]string)(&s.Tmpfs), (*[]string)(&s.Expose), &s.Links, &s.Profiles} {
 			sort.Strings(*l)
